@@ -32,9 +32,10 @@ def run_sendbatch(chk, limit, thorough):
         if v:
             return dict(scenarios=0, distinct=0, samples=[], violations=[v], extra={}), r
         raise vlib.MachineryError("SendBatch driver produced no result:\n" + t["out"][-3000:])
-    if t["rc"] != 0:
+    res = json.load(open(resf))
+    if t["rc"] != 0 and not res.get("violations"):
         raise vlib.MachineryError("SendBatch driver failed:\n" + t["out"][-3000:])
-    return json.load(open(resf)), r
+    return res, r
 
 
 def run(chk):
